@@ -516,6 +516,25 @@ where
         return None;
     }
 
+    // The loop below evaluates `P::WIDTH` points at a time. If the evaluation domain is smaller
+    // than a packed vector (tiny traces on wide SIMD builds), fall back to scalar evaluation.
+    if (1usize << (degree_bits + log2_ceil(stark.quotient_degree_factor()))) < P::WIDTH {
+        return compute_quotient_polys::<F, F, C, S, D>(
+            stark,
+            trace_commitment,
+            auxiliary_polys_commitment,
+            lookup_challenges,
+            lookups,
+            ctl_data,
+            public_inputs,
+            alphas,
+            degree_bits,
+            num_lookup_columns,
+            num_ctl_columns,
+            config,
+        );
+    }
+
     let degree = 1 << degree_bits;
     let rate_bits = config.fri_config.rate_bits;
     let total_num_helper_cols: usize = num_ctl_columns.iter().sum();
